@@ -24,10 +24,13 @@ pub struct NodeWorld {
 }
 
 /// Start a node, connect it to the scripted peer (real time), then take over the clock.
-pub async fn node_world(ctx: &WorkerCtx, peer_flags: u64) -> Result<NodeWorld, String> {
+pub async fn node_world(ctx: &WorkerCtx, peer_flags: u64) -> Result<NodeWorld, String> { node_world_opt(ctx, peer_flags, true).await }
+
+/// `start`: whether `Node::start` is called before connecting (a node may connect out without having been started).
+pub async fn node_world_opt(ctx: &WorkerCtx, peer_flags: u64, start: bool) -> Result<NodeWorld, String> {
     let w = World::new(ctx.heartbeat.clone(), &ctx.listeners).await;
     let mut node = Node::new("me@127.0.0.1", crate::world::COOKIE);
-    node.start(0).await.map_err(|e| format!("node.start: {}", e))?;
+    if start { node.start(0).await.map_err(|e| format!("node.start: {}", e))?; }
     let node = Arc::new(node);
     let n2 = node.clone();
     let h = tokio::spawn(async move { n2.connect(PEER_NAME).await });
@@ -62,7 +65,7 @@ fn marker_of_request(m: &DistMsg) -> Option<(RefVal, i64)> {
     Some((p[0].clone(), k.to_i64()?))
 }
 
-fn reply_frame(to: &RefVal, k: i64) -> Vec<u8> {
+pub fn reply_frame(to: &RefVal, k: i64) -> Vec<u8> {
     let m = DistMsg { control: RefVal::Tuple(vec![RefVal::int(2), RefVal::atom(""), to.clone()]), payload: Some(RefVal::Tuple(vec![RefVal::atom("rex"), RefVal::Tuple(vec![RefVal::atom("answer"), RefVal::int(k)])])) };
     frame(&write_pass_through(&m), 4)
 }
@@ -345,6 +348,65 @@ fn stalled_rpc_exec(case: &(usize, bool), ctx: &WorkerCtx) -> ExecResult {
     })
 }
 
+/// Calls that fail on another (broken) connection while calls to the healthy peer are waiting: a call F to the broken
+/// node is held at that connection's lock, a call C to the healthy peer goes out, F is let fail, two more calls D and E
+/// go out, then the peer answers C, D and E. Each must get its own answer; nothing may remain registered.
+fn failing_neighbour_exec(nfail: &usize, ctx: &WorkerCtx) -> ExecResult {
+    let nfail = *nfail;
+    run_rt(async move {
+        let mut res = ExecResult::default();
+        let mut nw = match node_world(ctx, flags_default()).await {
+            Ok(x) => x,
+            Err(e) => { res.violations.push(("could not establish the connection under a conforming peer".into(), json!({"error": e}))); return res; }
+        };
+        nw.w.gates.set_active(&[]);
+        // a second remote node whose connection object exists but was never connected: sends on it fail
+        let broken = "broken@127.0.0.1";
+        let bconn = Arc::new(tokio::sync::Mutex::new(edp_client::Connection::new(edp_client::ConnectionConfig::new("me@127.0.0.1", broken, crate::world::COOKIE))));
+        nw.node.connections().insert(broken.to_string(), bconn.clone());
+        let results: Arc<Mutex<Vec<(String, CallResult)>>> = Arc::new(Mutex::new(vec![]));
+        let probe = { let r = results.clone(); move || r.lock().unwrap().len() as u64 };
+        let call = |name: &str, target: &str, k: i64| {
+            let (node, results, name, target) = (nw.node.clone(), results.clone(), name.to_string(), target.to_string());
+            tokio::spawn(async move {
+                let r = node.rpc_call_raw_with_timeout(&target, "m", "f", vec![OwnedTerm::Integer(k)], Duration::from_secs(50)).await;
+                let cr = match r { Ok(v) => CallResult::Ok(format!("{:?}", v)), Err(edp_node::Error::RpcTimeout(_)) => CallResult::Timeout, Err(edp_node::Error::RpcCancelled) => CallResult::Cancelled, Err(e) => CallResult::Other(e.to_string()) };
+                results.lock().unwrap().push((name, cr));
+            })
+        };
+        let guard = bconn.lock().await;
+        for i in 0..nfail { call(&format!("F{}", i), broken, 100 + i as i64); for _ in 0..100 { nw.w.yield_once().await; } }
+        call("C", PEER_NAME, 1);
+        nw.w.settle(&mut nw.peer, &probe).await;
+        drop(guard); // the held calls now fail
+        nw.w.settle(&mut nw.peer, &probe).await;
+        call("D", PEER_NAME, 2);
+        nw.w.settle(&mut nw.peer, &probe).await;
+        call("E", PEER_NAME, 3);
+        nw.w.settle(&mut nw.peer, &probe).await;
+        // the peer answers every request it has seen, in order
+        let (frames, _) = nw.peer.dist_frames();
+        let mut asked = 0;
+        for f in &frames { if let Ok(m) = read_pass_through(f) { if let Some((from, k)) = marker_of_request(&m) { nw.peer.send(&reply_frame(&from, k)); asked += 1; nw.w.settle(&mut nw.peer, &probe).await; } } }
+        tokio::time::advance(Duration::from_secs(60)).await;
+        nw.w.settle(&mut nw.peer, &probe).await;
+        let got = results.lock().unwrap().clone();
+        let mut problems = vec![];
+        for (name, k) in [("C", 1i64), ("D", 2), ("E", 3)] {
+            let want = CallResult::Ok(format!("{:?}", expected_reply_term(k)));
+            if got.iter().find(|x| x.0 == name).map(|x| &x.1) != Some(&want) { problems.push(format!("{} returned {:?}", name, got.iter().find(|x| x.0 == name).map(|x| &x.1))); }
+        }
+        for i in 0..nfail { if !matches!(got.iter().find(|x| x.0 == format!("F{}", i)).map(|x| &x.1), Some(CallResult::Other(_))) { problems.push(format!("F{} did not fail with a send error", i)); } }
+        if asked != 3 { problems.push(format!("the peer saw {} requests instead of 3", asked)); }
+        if !problems.is_empty() { res.violations.push(("a call did not return the reply addressed to it after a call on another connection failed".into(), json!({"failing_calls_held_first": nfail, "problems": problems, "all_results": got.iter().map(|x| format!("{}: {:?}", x.0, x.1)).collect::<Vec<_>>()}))); }
+        let left = nw.node.pending_rpc_count();
+        if left != 0 { res.violations.push(("bookkeeping remains after every call has returned".into(), json!({"pending": left}))); }
+        res.steps = 3 + nfail as u64;
+        res.outcome = format!("failing neighbour {}", nfail);
+        res
+    })
+}
+
 pub fn run(rep: &Report) -> Value {
     let thorough = rep.thorough();
     let mut all: Vec<(String, Stats)> = vec![];
@@ -357,9 +419,11 @@ pub fn run(rep: &Report) -> Value {
     }
     let lens: Vec<usize> = if thorough { vec![70, 300] } else { vec![70] };
     let st_s = crate::explore::for_all(rep, "late reply of a finished call re-sent before each later reply", &lens, |n, ctx| straggler_exec(n, ctx));
+    let nf = vec![0usize, 1, 2, 3];
+    let st_fn = crate::explore::for_all(rep, "calls failing on another connection between waiting calls", &nf, |n, ctx| failing_neighbour_exec(n, ctx));
     let sizes = vec![(24usize, false), (24, true)];
     let st_st = crate::explore::for_all(rep, "peer stops reading under an oversized request, second caller queued behind it", &sizes, |n, ctx| stalled_rpc_exec(n, ctx));
-    let states: u64 = all.iter().map(|(_, s)| s.executions).sum::<u64>() + st_s.executions + st_st.executions;
+    let states: u64 = all.iter().map(|(_, s)| s.executions).sum::<u64>() + st_s.executions + st_st.executions + st_fn.executions;
     let transitions: u64 = all.iter().map(|(_, s)| s.transitions).sum::<u64>() + st_s.transitions;
     let mut samples: Vec<Value> = vec![];
     for (_, s) in &all { samples.extend(s.samples.iter().take(2).cloned()); }
@@ -371,6 +435,6 @@ pub fn run(rep: &Report) -> Value {
         "exhaustive": all.iter().all(|(_, s)| s.exhaustive),
         "scenarios": all.iter().map(|(n, s)| json!({"scenario": n, "executions": s.executions, "deviation_bound_completed": s.bound_completed, "distinct_outcomes": s.distinct_outcomes, "outcomes": s.outcomes, "max_decision_points": s.max_points, "unstable_failures_not_reported": s.unstable, "replay_divergences": s.diverged})).collect::<Vec<_>>(),
         "distinct_outcomes": all.iter().map(|(_, s)| s.distinct_outcomes).sum::<usize>(),
-        "rule": "stateless exploration of the real Node/Connection code on a single-threaded tokio runtime with a controller-owned clock, a scripted peer on loopback and gate hooks: at every decision point the enabled set = parked gates (rpc table steps, completed frame writes, route miss) + environment events (reply k, duplicated reply, reply to an unknown pid, reply to the caller's pid under another creation, timer k, peer close), two callers made runnable in the same tick, and per-caller cooperative-budget preemption (0..9 units left); all executions with at most `bound` non-default choices; states = complete executions; plus one (thorough: two) sequential history of 71 (301) calls in which the first call times out and its late reply is re-sent before the reply of every later call, and two histories (raw entry point and public wrapper) in which the peer stops reading under a 24 MiB request while a second caller with a 2 s timeout waits for the connection",
+        "rule": "stateless exploration of the real Node/Connection code on a single-threaded tokio runtime with a controller-owned clock, a scripted peer on loopback and gate hooks: at every decision point the enabled set = parked gates (rpc table steps, completed frame writes, route miss) + environment events (reply k, duplicated reply, reply to an unknown pid, reply to the caller's pid under another creation, timer k, peer close), two callers made runnable in the same tick, and per-caller cooperative-budget preemption (0..9 units left); all executions with at most `bound` non-default choices; states = complete executions; plus one (thorough: two) sequential history of 71 (301) calls in which the first call times out and its late reply is re-sent before the reply of every later call, four histories in which 0..3 calls held at a broken second connection fail between calls to the healthy peer, and two histories (raw entry point and public wrapper) in which the peer stops reading under a 24 MiB request while a second caller with a 2 s timeout waits for the connection",
     })
 }
